@@ -2,7 +2,7 @@
 import re
 
 from .lib import lit_str, operand_local, root_fn
-from .lib_c08 import Flow, Origins, controllers, field_writes
+from .lib_c08 import Flow, Origins, controllers, field_writes, gen_role
 
 LEVEL = "other"
 TECHNIQUE = ("static analysis: field-sensitive interprocedural source->sink mapping of the converter extracted from MIR and compared with a frozen table; "
@@ -423,7 +423,13 @@ def r3_single_entry(ctx):
             ro = fl.origins(f, t["args"][0])
             if ("openapiv3::Components", "schemas") in ro.fields and len(t["args"]) >= 3:
                 placed += 1
-                _placed(ctx, R, fl, f, bb, "components.schemas", t["args"][2])
+                src = "?"
+                site = fl.closure_site(f) if f.raw["kind"] == "Closure" else None
+                if site:
+                    for cbb, ct, k in fl.closure_receivers(site[0], site[2]):
+                        oo = fl.origins(site[0], ct["args"][0]) if k != 0 else Origins()
+                        src = "generator" if any(c.endswith("into_root_schema_for") for c in oo.calls) else "definitions"
+                _placed(ctx, R, fl, f, bb, "components.schemas<-%s" % src, t["args"][2])
     ctx.check(R, "placement-sites", placed >= 8, "places where a schema is stored in the document: %d" % placed, gen, nontrivial=False)
 
 
@@ -436,7 +442,7 @@ def _placed(ctx, R, fl, f, bb, slot, op):
     conv = any(re.search(r"^schema_util::j2oas_schema$", c) for c in o.calls)
     free = ("openapiv3::SchemaKind", "Any") in o.aggs and ("openapiv3::Schema", "Schema") in o.aggs and not conv
     what = "j2oas_schema(..)" if conv else ("the explicit free-form Any schema" if free else "NEITHER the converter NOR the reviewed free-form schema")
-    ctx.check(R, "placed:%s:%s%s" % (f.id.split("gen_openapi")[-1].lstrip(":") or "gen_openapi", slot, ":free-form" if free else ""), conv or free,
+    ctx.check(R, "placed:%s:%s%s" % (gen_role(f) if not slot.startswith("components.") else "flush", slot, ":free-form" if free else ""), conv or free,
               "schema stored in %s comes from %s" % (slot, what), (f, bb))
 
 
@@ -574,7 +580,7 @@ SELFTEST = [
                 "        copy_metadata(&mut data, metadata);\n"),
                (SU, "fn j2oas_subschemas(\n", "fn copy_metadata(\n    data: &mut openapiv3::SchemaData,\n    metadata: &schemars::schema::Metadata,\n) {\n    data.title.clone_from(&metadata.title);\n    data.description.clone_from(&metadata.description);\n    data.default.clone_from(&metadata.default);\n    data.deprecated = metadata.deprecated;\n    data.read_only = metadata.read_only;\n    data.write_only = metadata.write_only;\n}\n\nfn j2oas_subschemas(\n")],
      "why": "behaviour-preserving: the metadata copy is extracted into a helper function"},
-    {"name": "object-if-let", "kind": "benign", "edits": [(SU, "required: obj.required.iter().cloned().collect::<_>(),", "required: obj.required.iter().map(|r| r.clone()).collect::<Vec<String>>(),")],
+    {"name": "required-explicit-clone", "kind": "benign", "edits": [(SU, "required: obj.required.iter().cloned().collect::<_>(),", "required: obj.required.iter().map(|r| r.clone()).collect::<Vec<String>>(),")],
      "why": "behaviour-preserving: explicit clone closure and collection type"},
     {"name": "maxlength-try-from", "kind": "benign", "edits": [(SU, "string.max_length.map(|n| n as usize),", "string.max_length.map(|n| usize::try_from(n).unwrap()),")],
      "why": "behaviour-preserving on 32/64-bit targets: u32 always fits usize"},
